@@ -18,7 +18,8 @@ from redcheck import tla_set
 NAMES = ['A', 'B', 'C', 'D', 'D0', 'Tz', 'D3', 'G', 'Pr', 'P', 'Pk', 'Pw', 'Mv', 'Mvi', 'Rs', 'Rv', 'Rn', 'Bd',
          'R1', 'R2', 'R3', 'Hw', 'Pl', 'R1i', 'Hwi', 'Pli', 'R1v', 'Hwv', 'Plv', 'AI', 'DI', 'D0I', 'D3I', 'TzI', 'GT',
          'CT', 'PrT', 'PT', 'PkT', 'MvT', 'RsT', 'RvT', 'BdT', 'R1T', 'R3T', 'R1iT', 'PlT', 'I2v', 'Iqu', 'Im',
-         'H2', 'Hh', 'Hq', 'Hm', 'AB']
+         'H2', 'Hh', 'Hq', 'Hm', 'AB', 'Mc', 'McT', 'Mn']
+SOLO = ['Dq', 'DqI', 'Dh']       # extreme parameter values (tiny / huge diagonal entries): used alone only
 POOL_QUICK = ['A', 'D', 'AI', 'DI', 'I2v', 'H2', 'G', 'GT', 'Pr', 'R1', 'R1T', 'Hw', 'Pl', 'Tz', 'D0']
 POOL_THOROUGH = POOL_QUICK + ['B', 'C', 'PrT', 'P', 'R2', 'Mv', 'Rs', 'D3', 'Hh']
 
@@ -26,6 +27,7 @@ CFG = """INIT Init
 NEXT Next
 CONSTANTS
   Names = {names}
+  Solo = {solo}
   Pool = {pool}
   Templates = {{{tpl}}}
 INVARIANT TransposeIsAdjoint
@@ -48,7 +50,7 @@ def generate(tier: str, templates=None) -> fx.TlcResult:
                           [t for t in tpls if t == 6], [t for t in tpls if t in (8, 9)]) if g]
 
     def cfg(i: int) -> str:
-        return CFG.format(names=tla_set(NAMES), pool=tla_set(pool), tpl=', '.join(map(str, groups[i])))
+        return CFG.format(names=tla_set(NAMES), solo=tla_set(SOLO), pool=tla_set(pool), tpl=', '.join(map(str, groups[i])))
 
     res = fx.run_tlc_sharded('MC_Terms', cfg, len(groups), workers=4, parallel=4)
     if res.violated:
@@ -94,7 +96,7 @@ def _close(got, want, tol):
         return True, 0.0
     if not np.all(np.isfinite(got)):
         return False, float('inf')
-    scale = max(1.0, float(np.max(np.abs(want))))
+    scale = float(np.max(np.abs(want))) or 1.0      # relative to the magnitude of the expected matrix
     err = float(np.max(np.abs(got - want)))
     return bool(err <= tol * scale), err
 
